@@ -41,12 +41,12 @@ Lemma uniq_name_same_set : forall fuel fuel' name a b c c',
   uniq_name fuel name a = Some c -> uniq_name fuel' name b = Some c' -> c = c'.
 Proof.
   induction fuel as [|k IH]; intros fuel' name a b c c' Hs H1 H2.
-  - simpl in H1. destruct (str_mem name a) eqn:E; [discriminate|]. injection H1 as <-.
-    rewrite (str_mem_same_set a b _ Hs) in E. destruct fuel'; simpl in H2; rewrite E in H2; congruence.
-  - simpl in H1. destruct (str_mem name a) eqn:E.
-    + rewrite (str_mem_same_set a b _ Hs) in E. destruct fuel' as [|k']; simpl in H2; rewrite E in H2; [discriminate|].
+  - cbn [uniq_name] in H1. destruct (str_mem (unraw name) a) eqn:E; [discriminate|]. injection H1 as <-.
+    rewrite (str_mem_same_set a b _ Hs) in E. destruct fuel'; cbn [uniq_name] in H2; rewrite E in H2; congruence.
+  - cbn [uniq_name] in H1. destruct (str_mem (unraw name) a) eqn:E.
+    + rewrite (str_mem_same_set a b _ Hs) in E. destruct fuel' as [|k']; cbn [uniq_name] in H2; rewrite E in H2; [discriminate|].
       eapply IH; eassumption.
-    + injection H1 as <-. rewrite (str_mem_same_set a b _ Hs) in E. destruct fuel'; simpl in H2; rewrite E in H2; congruence.
+    + injection H1 as <-. rewrite (str_mem_same_set a b _ Hs) in E. destruct fuel'; cbn [uniq_name] in H2; rewrite E in H2; congruence.
 Qed.
 
 Theorem uniq_name_set_only name a b :
